@@ -29,20 +29,26 @@ def run(tier, seed):
     if exe_h is None:
         c.broken_correspondence("harness-build", None, V.tail(hlog, 40))
     else:
+        # the specification oracle does not depend on the translated kernels: it still judges the
+        # implementation when gen/GenArith.v fails to translate or compile
+        exe_s, slog = V.build_model("c10spec", "extract/ExtractC10Spec.v", "c10spec", deps=["c10/SpecRun.v"])
         exe_m, mlog = V.build_model("c10", "extract/ExtractC10.v", "c10model", deps=["c10/Run.v"])
         if exe_m is None:
             c.broken_correspondence("model-extraction", None, V.tail(mlog, 40))
+        if exe_s is None:
+            c.broken_correspondence("spec-extraction", None, V.tail(slog, 40))
+        n = 400 if tier == "quick" else 1000000
+        rc, out, cases, st = V.run_harness("c10", "c10", seed, n, tier)
+        if rc != 0:
+            c.broken_correspondence("harness-run", None, V.tail(out, 40))
         else:
-            n = 400 if tier == "quick" else 1000000
-            rc, out, cases, st = V.run_harness("c10", "c10", seed, n, tier)
-            if rc != 0:
-                c.broken_correspondence("harness-run", None, V.tail(out, 40))
-            else:
+            if exe_s:
+                smism = V.compare_model(c, exe_s, cases, "c10:spec", count=(exe_m is None))
+            if exe_m:
                 mism = V.compare_model(c, exe_m, cases, "c10")
-                smism = V.compare_model(c, exe_m, cases, "c10", spec=True)
-                for v in (st.get("impl_violations") or []):
-                    c.failing_input("impl-oracle", v, v)
-    if not proved and exe_h and exe_m and not smism:
+            for v in (st.get("impl_violations") or []):
+                c.failing_input("impl-oracle", v, v)
+    if not proved and exe_h and exe_m and exe_s and not smism:
         # a proof over the regenerated kernels broke and the generated cases show nothing: search the
         # translated model against exact arithmetic over the int64 boundary set, replay candidates on the impl
         cands = search_model(exe_m)
@@ -50,8 +56,8 @@ def run(tier, seed):
         if cands:
             pairs = [("%s:%s" % (x[1], x[2] if len(x) > 2 else "1")) for x in cands]
             rc, out, cases, st2 = V.run_harness("c10", "c10", seed, 0, tier, extra=pairs, name="c10search")
-            if rc == 0:
-                smism = V.compare_model(c, exe_m, cases, "c10search", spec=True)
+            if rc == 0 and exe_s:
+                smism = V.compare_model(c, exe_s, cases, "c10search")
     # impl != spec: the implementation violates the property on that input (replay = the case line)
     for line, verdict in smism[:10]:
         c.failing_input("implementation differs from exact integer arithmetic", line, "expected: " + verdict)
